@@ -27,7 +27,7 @@ ASSUMPTIONS = ['curve points are compared with 10^model_fluxes mJy x nu in erg/c
                'apertures are generated with >= 2 distinct values so that "smallest" and "largest" differ',
                'aperture radii are kept below the largest tabulated aperture by >= 2 % (the 0.999 clamp of interpolate_variable is outside the statement)']
 PROBES = ['mode_interp', 'mode_largest', 'mode_largest+smallest', 'mode_all', 'multi_aperture', 'single_aperture', 'channel_path', 'channel_obj',
-          'consumer_before_plot', 'plot_memmap_off', 'f4_storage', 'fewer_models_than_requested', 'best_fit_last_checked']
+          'consumer_before_plot', 'plot_memmap_off', 'f4_storage', 'fewer_models_than_requested', 'best_fit_last_checked', 'wavelengths_in_other_unit']
 
 
 def budgets(tier):
@@ -43,11 +43,14 @@ def generate(rng, tier, idx):
     sc = {'world': w, 'nf': nf, 'idx_seed': rng.randrange(1 << 30), 'theta_seed': rng.randrange(1 << 30), 'fit_memmap': rng.random() < 0.5,
           'av_range': [0.0, round(rng.uniform(2, 15), 2)], 'source_seed': rng.randrange(1 << 30),
           'dmin': float('%.4g' % (10 ** rng.uniform(-1, 0.3))), 'dspan': float('%.4g' % (10 ** rng.uniform(0, 0.3))),
-          'n_theta': rng.randint(2, 3)}
+          'n_theta': rng.randint(2, 3),
+          # the unit in which the user gives the monochromatic wavelengths (any length unit is legal)
+          'wav_unit': rng.choice(['micron', 'micron', 'Angstrom', 'nm', 'mm', 'cm', 'm'])}
     steps = []
     for _ in range(rng.randint(1, 4)):
         steps.append({'op': 'plot', 'mode': rng.choice(MODES), 'nsel': rng.randint(1, 5), 'channel': rng.choice(['path', 'obj']),
-                      'memmap': rng.random() < 0.5, 'before': rng.choice([None, None, 'wp', 'ep'])})
+                      'memmap': rng.random() < 0.5, 'before': rng.choice([None, None, 'wp', 'ep']),
+                      'show_convolved': rng.random() < 0.3, 'plot_max': rng.choice([None, None, None, 2])})
     sc['steps'] = steps
     return sc
 
@@ -100,7 +103,10 @@ def _execute(sc, sim, out):
         theta[0], theta[-1] = pool[0], pool[-1]
     if spec['dtype'] == 'f4':
         out.probe('f4_storage')
-    r = pipe.call(pipe.Fitter, [x * u.micron for x in fw], theta * u.arcsec, d, extinction_law=W.extinction(), av_range=list(sc['av_range']),
+    wunit = u.Unit(sc.get('wav_unit', 'micron'))
+    if sc.get('wav_unit', 'micron') != 'micron':
+        out.probe('wavelengths_in_other_unit')
+    r = pipe.call(pipe.Fitter, [(x * u.micron).to(wunit) for x in fw], theta * u.arcsec, d, extinction_law=W.extinction(), av_range=list(sc['av_range']),
                   distance_range=[dmin, dmax] * u.kpc, use_memmap=sc['fit_memmap'])
     if r[0] != 'ok':
         out.discarded = 'setup-fitter:' + pipe.exc_name(r)
@@ -136,7 +142,8 @@ def _execute(sc, sim, out):
                 return
         if not st['memmap']:
             out.probe('plot_memmap_off')
-        rp = pipe.call(plot, arg, select_format=('N', st['nsel']), sed_type=mode, memmap=st['memmap'])
+        rp = pipe.call(plot, arg, select_format=('N', st['nsel']), sed_type=mode, memmap=st['memmap'], show_convolved=bool(st.get('show_convolved')),
+                       plot_max=st.get('plot_max'))
         out.probe('mode_' + mode)
         what = 'plot(%s, N=%d, via %s%s)' % (mode, st['nsel'], st['channel'], ', after %s' % st['before'] if st['before'] else '')
         if rp[0] != 'ok':
@@ -149,6 +156,8 @@ def _execute(sc, sim, out):
             break
         segs = figs['src']['lines'].get_segments()
         k = min(st['nsel'], W.n_models)
+        if st.get('plot_max'):
+            k = min(k, st['plot_max'])
         if st['nsel'] > W.n_models:
             out.probe('fewer_models_than_requested')
         shown = {'interp': [None], 'largest': [theta.max()], 'largest+smallest': [theta.min(), theta.max()], 'all': list(ua)}[mode]
@@ -205,3 +214,5 @@ def lowerings(sc, viol=None):
     for key, val in (('dtype', 'f8'), ('asc', False)):
         if w.get(key) != val:
             yield dict(sc, world=dict(w, **{key: val}))
+    if sc.get('wav_unit', 'micron') != 'micron':
+        yield dict(sc, wav_unit='micron')
